@@ -23,6 +23,7 @@ SemiTol == 1000000   \* semicircles (r = half chord in floating point): sqrt(r^2
 
 NonDecreasing(u) == \A k \in 1..(Len(u) - 1) : u[k] <= u[k + 1]
 
+OnCurve(x) == x.first <= Tol /\ x.last <= Tol /\ x.dist <= Tol /\ x.mono /\ NonDecreasing(x.u)
 Judge(e) ==
   LET say(ok, why) == IF ok THEN TRUE ELSE (PrintT(<<"BAD", l, why>>) /\ FALSE)
   IN CASE e.ev = "corner" ->
@@ -63,10 +64,14 @@ Judge(e) ==
                   /\ say(e.linear => e.nlin = NLinear(e.v.pts, e.v.closed), "harness-structure-differs-from-model"))
             /\ say(~e.panic /\ ~e.err, "bezier-builder-failed")
             /\ say(e.nan = 0 /\ e.n >= 2, "bezier-output-degenerate")
-            /\ say(e.first <= Tol, "first-vertex-is-not-the-first-end-point")
-            /\ say(e.last <= Tol, IF e.closed THEN "closed-curve-does-not-return-to-start" ELSE "last-vertex-is-not-the-last-end-point")
-            /\ say(e.dist <= Tol, "vertex-not-on-the-curve")
-            /\ say(e.mono /\ NonDecreasing(e.u), "parameters-not-in-increasing-order")
+            \* negative handle lengths are not defined by the property: either reading (|r|, or signed: e.s) is
+            \* accepted, but one reading must explain the whole curve - both handle setters read lengths alike
+            /\ (IF e.alt
+                THEN say(OnCurve(e) \/ OnCurve(e.s), "no-reading-of-negative-handles-fits")
+                ELSE /\ say(e.first <= Tol, "first-vertex-is-not-the-first-end-point")
+                     /\ say(e.last <= Tol, IF e.closed THEN "closed-curve-does-not-return-to-start" ELSE "last-vertex-is-not-the-last-end-point")
+                     /\ say(e.dist <= Tol, "vertex-not-on-the-curve")
+                     /\ say(e.mono /\ NonDecreasing(e.u), "parameters-not-in-increasing-order"))
             /\ (e.linear => say(e.n = e.nlin /\ e.lin <= Tol, "degree-1-span-not-reproduced-exactly"))
        [] OTHER -> say(FALSE, "unknown-event")
 
